@@ -175,6 +175,9 @@ func Catalogue(dir string) []Case {
 		{name: "bad-exec-format", body: "this is not a program\n\x00\x01\x02", raw: true, startFail: true},
 		{name: "missing-interpreter", body: "#!/nonexistent/verif-no-such-interpreter\necho 42\n", raw: true, startFail: true},
 		{name: "is-directory", body: "", raw: true, startFail: true},
+		{name: "is-fifo-without-writer", body: "", raw: true, startFail: true},
+		{name: "is-symlink-to-fifo", body: "", raw: true, startFail: true},
+		{name: "is-dangling-symlink", body: "", raw: true, startFail: true},
 		{name: "sleep-exec-beyond-deadline", body: "exec sleep " + sleepS},
 		{name: "sleep-child-beyond-deadline", body: "sleep " + sleepS + "\necho 42", holds: true},
 		{name: "grandchild-holds-stdout", body: "sleep " + sleepS + " &\necho 42", stdout: "42", holds: true},
@@ -196,6 +199,34 @@ func Catalogue(dir string) []Case {
 				panic(err)
 			}
 			cases = append(cases, Case{Name: s.name, Path: p, StartFailure: true, Script: "<directory>"})
+			continue
+		}
+		if s.name == "is-fifo-without-writer" || s.name == "is-symlink-to-fifo" {
+			// a root-owned named pipe nobody writes to: opening it for reading would block forever
+			fifo := p
+			if s.name == "is-symlink-to-fifo" {
+				fifo = p + ".pipe"
+			}
+			_ = os.Remove(fifo)
+			if err := syscall.Mkfifo(fifo, 0o755); err != nil {
+				panic(err)
+			}
+			_ = os.Chown(fifo, 0, 0)
+			if fifo != p {
+				_ = os.Remove(p)
+				if err := os.Symlink(fifo, p); err != nil {
+					panic(err)
+				}
+			}
+			cases = append(cases, Case{Name: s.name, Path: p, StartFailure: true, Script: "<named pipe>"})
+			continue
+		}
+		if s.name == "is-dangling-symlink" {
+			_ = os.Remove(p)
+			if err := os.Symlink(p+".gone", p); err != nil {
+				panic(err)
+			}
+			cases = append(cases, Case{Name: s.name, Path: p, StartFailure: true, Script: "<dangling symlink>"})
 			continue
 		}
 		content := s.body
